@@ -5,7 +5,8 @@ import _msggen as G
 
 ID = "C15"
 FAMILY = "message"
-RULE = ("mode 1: a generated message (6 types x uint8 versions x boundary field values) is encoded and decoded "
+RULE = ("mode 1: a generated message (6 types x uint8 versions x boundary field values; every empty / non-empty combination of "
+        "an announce's endpoint, manifest URI and shard list and an empty / one-byte chunk payload for every version class) is encoded and decoded "
         "again by the implementation and by the extracted model; non-trivial = the decode succeeded; distinct = "
         "distinct implementation output lines")
 ASSUMPTIONS = ["lengths < 2^32 (wire range)", "LP64 target"]
@@ -20,6 +21,8 @@ def generate(rng, tier):
         for v in [0, 1, 2, 3, 4, 5, 6, 255]:
             m = G.rand_message(rng, kind, v)
             cases.append({"ints": [1] + G.msg_ints(m), "tag": f"sys:k{kind}v{v}"})
+    for m, tag in G.minimal_messages(rng):
+        cases.append({"ints": [1] + G.msg_ints(m), "tag": tag})
     for i in range(n):
         m = G.rand_message(rng, big=(tier == "thorough" or i % 50 == 0))
         cases.append({"ints": [1] + G.msg_ints(m), "tag": f"rand:k{m['kind']}"})
